@@ -154,6 +154,14 @@ class PathEnd(Exception):
 
 Unsupported = F.Unsupported
 EVAL_DEBUG_ASSERTS = True
+import os as _os
+import time as _time
+# wall-clock budget of one exploration (the largest on the pinned tree, Quantile::add, takes ~30 s):
+# a loop the abstract state cannot bound must end the exploration as undecided, not hang the check
+EXPLORE_SECONDS = int(_os.environ.get("AVG_EXPLORE_SECONDS", "300"))
+# wall-clock budget for ONE path (a loop the evaluator cannot bound keeps stepping with ever larger
+# residuals; the path is then undecided, not the whole run stuck)
+PATH_SECONDS = int(_os.environ.get("AVG_PATH_SECONDS", "90"))
 
 
 class Config:
@@ -190,6 +198,7 @@ class Machine:
         self.unmodelled = []
         self.notes = []
         self.steps = 0
+        self.deadline = _time.time() + PATH_SECONDS
         self.depth = 0
         self.fresh = 0
         self.stack = []
@@ -926,6 +935,8 @@ class Machine:
             sp = t["span"]
             k = t["k"]
             self.steps += 1
+            if (self.steps & 63) == 0 and _time.time() > self.deadline:
+                raise PathEnd("inconclusive", {"why": "time budget of %d s for one path exhausted (%d steps)" % (PATH_SECONDS, self.steps)})
             if k == "goto":
                 bb = t["target"]
             elif k == "return":
@@ -1132,6 +1143,7 @@ def explore(db, setup, cfg=None, max_paths=20000):
     script = []
     n_infeasible = 0
     n = 0
+    t_start = _time.time()
     while True:
         m = Machine(db, script, cfg)
         status, ret, info, roots, extra = None, None, {}, {}, None
@@ -1175,6 +1187,10 @@ def explore(db, setup, cfg=None, max_paths=20000):
         script = [c for c, _, _ in tr[:i]] + [tr[i][0] + 1]
         if n >= max_paths:
             results.append(PathResult(status="inconclusive", info={"why": "path budget %d exhausted" % max_paths},
+                                      pc=[], writes=[], calls=[], unmodelled=[], trace=[], machine=m, roots={}))
+            break
+        if _time.time() - t_start > EXPLORE_SECONDS:
+            results.append(PathResult(status="inconclusive", info={"why": "time budget of %d s for one exploration exhausted after %d paths" % (EXPLORE_SECONDS, n)},
                                       pc=[], writes=[], calls=[], unmodelled=[], trace=[], machine=m, roots={}))
             break
     return results, {"runs": n, "infeasible": n_infeasible}
